@@ -131,6 +131,11 @@ theorem haversine_nonneg (hR : 0 ≤ F.R) (hsqrt : ∀ x, 0 ≤ F.sqrt x)
     (hatan : ∀ y x, 0 ≤ y → 0 ≤ x → 0 ≤ F.atan2 y x) (p q : Pt α) :
     0 ≤ distanceHaversine F p q := haversine_nonneg' F hR hsqrt hatan p q
 
+/-- The clamp `a = math.Min(a, 1)` (fix eb6ce31) keeps the argument of the second square root
+    non-negative whatever `a` rounds to: no NaN from `sqrt(1 - a)` for (nearly) antipodal points. -/
+theorem haversine_sqrt_arg_nonneg (hmin : ∀ a b, F.min a b ≤ b) (p q : Pt α) :
+    0 ≤ 1 - F.min (havA F p q) 1 := haversine_sqrt_arg_nonneg' F hmin p q
+
 /-- The antimeridian fold: the folded longitude difference never exceeds `π`
     (given `abs x ≤ 2π` for the differences that occur, i.e. longitudes within ±180°). -/
 theorem distance_fold_le_pi (x : α) (h2 : F.abs x ≤ 2 * F.pi) (hpi : 0 ≤ F.pi) :
